@@ -341,8 +341,13 @@ func regexpNext(sb *strings.Builder, sl *stringLexer, mode Mode) error {
 				}
 				start := sl.last()
 				end := sl.peekNext()
+				lastInSet := end == ']' // a trailing '-' is a literal
+				if end == '\\' && sl.i+1 < len(sl.s) {
+					// the range ends at an escaped character
+					end, _ = utf8.DecodeRuneInString(sl.s[sl.i+1:])
+				}
 				// TODO: what about overlapping ranges, like: [a--z]
-				if end != ']' && start > end && deferredErr == nil {
+				if !lastInSet && start > end && deferredErr == nil {
 					deferredErr = &SyntaxError{msg: fmt.Sprintf("invalid range: %c-%c", start, end)}
 				}
 			case ']':
